@@ -81,7 +81,8 @@ func c17Gen(tier string, r *rand.Rand) []Case {
 			mk("edge-keys", "different-data", pr[0], pr[1], "", "")
 		}
 		// more proof shapes and mixtures of two defects
-		for _, m := range []string{"nil1", "nil2", "nil-both", "empty-both", "short-both", "long1", "len96-2", "infstray1", "header-e0-2", "flags2", "order3-1", "order3-both",
+		for _, m := range []string{"nil1", "nil2", "nil-both", "empty-both", "short-both", "long1", "len96-2", "infstray1", "infstray1-id2@1", "infstray1-id2@24", "infstray1-id2@40", "infstray1-id2@41", "infstray1-id2@44", "infstray1-id2@47",
+			"infstray-both@41", "infstray-both@47", "infstray-both@8", "header-e0-2", "flags2", "order3-1", "order3-both",
 			"same-key-same-order3", "malformed1-plusT2", "plusT1-malformed2", "short1-plusT2", "malformed-both", "xgep1-offcurve2", "offcurve1", "same-proof-different-keys",
 			"neg-one-same-key", "different-tag", "scaled-by-zero", "scaled-differently", "honest-after-failures"} {
 			k1 := rk()
@@ -399,6 +400,18 @@ func c17Run(c Case) (Result, error) {
 	case "infstray1":
 		p1 = append([]byte{}, inf...)
 		p1[1+rr.IntN(47)] = byte(1 + rr.IntN(255))
+	case "infstray1-id2@1", "infstray1-id2@24", "infstray1-id2@40", "infstray1-id2@41", "infstray1-id2@44", "infstray1-id2@47",
+		"infstray-both@41", "infstray-both@47", "infstray-both@8":
+		// a non-canonical infinity encoding next to the canonical one (or another non-canonical one):
+		// were it read as the identity the pairing equation would hold trivially
+		var pos int
+		fmt.Sscanf(in.Mode[strings.Index(in.Mode, "@")+1:], "%d", &pos)
+		p1 = append([]byte{}, inf...)
+		p1[pos] = byte(1 + rr.IntN(255))
+		p2 = append([]byte{}, inf...)
+		if strings.HasPrefix(in.Mode, "infstray-both") {
+			p2[pos] = byte(1 + rr.IntN(255))
+		}
 	case "header-e0-2":
 		p2 = crypto.BLSInvalidSignature()
 	case "flags2":
